@@ -367,7 +367,12 @@ def specStep (s : SpecSt) (l : String) : SpecSt × String :=
           else ({ s with xlive := s.xlive.filter (· != t) }, "ok")
         | none =>
           if s.xlive.any (fun t => t.id == i) then
-            (if sent.isEmpty && x.isEmpty then (s, "ok")
+            -- a frame of ANOTHER peer meets an exit record with the same bare id (known finding); an empty
+            -- FIN frame has no visible effect now but shuts that record's write side
+            let finHit := (rest.drop 1).headD "0" == "1"
+            (if sent.isEmpty && x.isEmpty then
+               (if finHit then { s with collided := true,
+                                        xlive := s.xlive.map (fun t => if t.id == i then { t with fin := true } else t) } else s, "ok")
              else ({ s with xlive := s.xlive.filter (fun t => t.id != i) }, "fail c16-collision-exit-wrong-peer"))
           else (s, if sent.isEmpty && x.isEmpty then "ok" else "fail " ++ tag s "phantom")
     | "err" :: k :: p :: i :: rest =>
